@@ -386,8 +386,12 @@ NOEV = "-noevents -skip files,stat,pos"
 
 REGISTRY = {
     "C01": {
-        "corr": lambda tier, seed: corr_engine("C01", tier, seed, "batches,merges,bigvals,backups,hostilesome", 120, 3000, ops=40,
-                                               dflags=NOEV, oracle_props=["C01", "C10"]),
+        "corr": lambda tier, seed: corr_merge_results(
+            corr_engine("C01", tier, seed, "batches,merges,bigvals,backups,hostilesome", 120, 3000, ops=40,
+                        dflags=NOEV, oracle_props=["C01", "C10"]),
+            # "at every moment": a few stepped schedules of concurrent writers and readers of one key, judged against the map
+            corr_simple("C01", tier, seed + 17, "concgen", 24, 400, ["C01", "C08"],
+                        "harness/vh concgen (as in the C08 check): stepped schedules of 2-4 clients on overlapping keys, parked writers, free-running stress with a restart comparison")),
         "assumptions": ["theorems are about the record-level engine model (coq/model/Engine.v, Script.v); its tie to db.go/batch.go/merge.go is the differential run of this check",
                         "index type and shard count are abstracted to one ordered map (C10/C14 treat the sharded index)",
                         "file-system calls do not fail"],
